@@ -44,6 +44,8 @@ def records(rng, N=None, L=None, nrec=None, wt="u", maxw=3, labels=None, ensure_
                     w = rng.choice([w - rng.random() * 0.9, w + 0.0, 1e-7, 0.5, 2.5,
                                     w + 5e-7, w + 1e-9, w + 1e-6, w + 2e-6, w - 1e-9, w + 1e-12])
                 w = float(w)
+                if rng.random() < 0.03:
+                    w = float("nan")      # not a number: no edge in this layer (every comparison with it is false), the end points exist
             elif wt == "l" and rng.random() < 0.05:
                 w = -rng.randint(0, 2)
             ws.append(w)
